@@ -85,6 +85,11 @@ func c12Input(x *runCtx, b []byte, class string, measureAlloc bool) {
 		x.r.Violate(rep.Violation{Kind: "oracle", Check: "C12.alloc-bound", Signature: "C12.alloc:" + class, Input: trunc(h, 400),
 			Impl: fmt.Sprintf("allocated %d bytes decoding %d input bytes (bound %d)", alloc, len(b), allocBound(len(b))), PropertyFails: true})
 	}
+	// lengths the head merely claims: at or above the documented limit nothing may be accepted
+	if mt, arg, ok := firstHead(b); ok && mt >= 2 && mt <= 5 && arg >= uint64(cbor.MaxArrayDecodeLength) && (okRaw || okAny) {
+		x.r.Violate(rep.Violation{Kind: "oracle", Check: "C12.length-limit", Signature: fmt.Sprintf("C12.over-limit-accepted:major%d", mt), Input: trunc(h, 200),
+			Impl: fmt.Sprintf("head declares %d, limit %d: raw=%s any=%s", arg, cbor.MaxArrayDecodeLength, replyRaw, trunc(replyAny, 60)), PropertyFails: true})
+	}
 	x.c.add(pending{check: "C12.decode-raw", line: "cbor.raw " + h, impl: replyRaw, input: h})
 	x.c.add(pending{check: "C12.decode-any", line: "cbor.any " + h, impl: replyAny, input: h})
 	// exactness oracles on the implementation alone
@@ -213,4 +218,26 @@ func adversarial(thorough bool) [][]byte {
 		out = append(out, rep(inflArr, 2000), rep(inflMap, 2000), rep([]byte{0x81}, 65536), rep([]byte{0xd8, 0x18}, 30000))
 	}
 	return out
+}
+
+// firstHead parses the head of the first data item: major type and argument.
+func firstHead(b []byte) (mt byte, arg uint64, ok bool) {
+	if len(b) == 0 {
+		return 0, 0, false
+	}
+	mt, ai := b[0]>>5, b[0]&0x1f
+	switch {
+	case ai < 24:
+		return mt, uint64(ai), true
+	case ai <= 27:
+		w := 1 << (ai - 24)
+		if len(b) < 1+w {
+			return 0, 0, false
+		}
+		for _, c := range b[1 : 1+w] {
+			arg = arg<<8 | uint64(c)
+		}
+		return mt, arg, true
+	}
+	return 0, 0, false
 }
